@@ -81,19 +81,23 @@ theorem toFile_raises (ws : List Bytes) (l : Bool) (d : Option Bytes) :
     (toFile (.raises ws) l d).ok = false ∧ (toFile (.raises ws) l d).dest = d := by
   simp [toFile]
 
-theorem pgf_skip (ow : Bool) (c : CartArg) (rest : List CartArg) (s : Store) (err : Bool) (h : c.loads = false) :
-    processGameFiles ow (c :: rest) s err = processGameFiles ow rest s true := by
+theorem pgf_notcart (ow : Bool) (c : CartArg) (rest : List CartArg) (s : Store) (err : Bool) (h : c.cart = false) :
+    processGameFiles ow (c :: rest) s err = processGameFiles ow rest s err := by
   simp [processGameFiles, h]
 
+theorem pgf_skip (ow : Bool) (c : CartArg) (rest : List CartArg) (s : Store) (err : Bool) (hc : c.cart = true) (h : c.loads = false) :
+    processGameFiles ow (c :: rest) s err = processGameFiles ow rest s true := by
+  simp [processGameFiles, h, hc]
+
 theorem pgf_returns (ow : Bool) (c : CartArg) (rest : List CartArg) (s : Store) (err : Bool) (ws : List Bytes)
-    (h : c.loads = true) (he : c.enc = .returns ws) :
+    (hc : c.cart = true) (h : c.loads = true) (he : c.enc = .returns ws) :
     processGameFiles ow (c :: rest) s err = processGameFiles ow rest (s.set (outName ow c) ws.flatten) err := by
-  simp [processGameFiles, h, he, toFile_returns]
+  simp [processGameFiles, h, hc, he, toFile_returns]
 
 theorem pgf_raises (ow : Bool) (c : CartArg) (rest : List CartArg) (s : Store) (err : Bool) (ws : List Bytes)
-    (h : c.loads = true) (he : c.enc = .raises ws) :
+    (hc : c.cart = true) (h : c.loads = true) (he : c.enc = .raises ws) :
     processGameFiles ow (c :: rest) s err = (s, .raised) := by
-  simp [processGameFiles, h, he, toFile_raises]
+  simp [processGameFiles, h, hc, he, toFile_raises]
 
 /-- **C11.cli_never_removes**: whatever carts a command line names and whichever of them fail, no file that existed before
 the command is missing afterwards. -/
@@ -102,13 +106,16 @@ theorem cli_never_removes (ow : Bool) (cs : List CartArg) (s : Store) (err : Boo
   induction cs generalizing s err with
   | nil => simpa [processGameFiles] using h
   | cons c rest ih =>
+    cases hk : c.cart with
+    | false => rw [pgf_notcart ow c rest s err hk]; exact ih s err h
+    | true =>
     cases hl : c.loads with
-    | false => rw [pgf_skip ow c rest s err hl]; exact ih s true h
+    | false => rw [pgf_skip ow c rest s err hk hl]; exact ih s true h
     | true =>
       cases he : c.enc with
-      | raises ws => rw [pgf_raises ow c rest s err ws hl he]; exact h
+      | raises ws => rw [pgf_raises ow c rest s err ws hk hl he]; exact h
       | returns ws =>
-        rw [pgf_returns ow c rest s err ws hl he]
+        rw [pgf_returns ow c rest s err ws hk hl he]
         apply ih
         by_cases hq : p = outName ow c
         · rw [hq, get_set_self]; rfl
@@ -117,43 +124,53 @@ theorem cli_never_removes (ow : Bool) (cs : List CartArg) (s : Store) (err : Boo
 /-- **C11.cli_failure_keeps_everything_from_there**: when a cart's write raises, the store is exactly what the carts before
 it produced: the failing cart's destination — its own input with `--overwrite` — and everything else are untouched. -/
 theorem cli_failure_stops (ow : Bool) (pre : List CartArg) (c : CartArg) (post : List CartArg) (s : Store) (err : Bool) (ws : List Bytes)
-    (hpre : ∀ q ∈ pre, q.loads = false ∨ ∃ w, q.enc = .returns w) (hl : c.loads = true) (hc : c.enc = .raises ws) :
+    (hpre : ∀ q ∈ pre, q.cart = false ∨ q.loads = false ∨ ∃ w, q.enc = .returns w) (hk : c.cart = true) (hl : c.loads = true) (hc : c.enc = .raises ws) :
     (processGameFiles ow (pre ++ c :: post) s err).2 = .raised ∧
     (processGameFiles ow (pre ++ c :: post) s err).1 = (processGameFiles ow pre s err).1 := by
   induction pre generalizing s err with
   | nil =>
-    rw [List.nil_append, pgf_raises ow c post s err ws hl hc]
+    rw [List.nil_append, pgf_raises ow c post s err ws hk hl hc]
     simp [processGameFiles]
   | cons q rest ih =>
-    have hrest : ∀ q ∈ rest, q.loads = false ∨ ∃ w, q.enc = .returns w :=
+    have hrest : ∀ q ∈ rest, q.cart = false ∨ q.loads = false ∨ ∃ w, q.enc = .returns w :=
       fun x hx => hpre x (List.mem_cons_of_mem _ hx)
     rw [List.cons_append]
+    cases hqk : q.cart with
+    | false =>
+      rw [pgf_notcart ow q _ s err hqk, pgf_notcart ow q _ s err hqk]
+      exact ih s err hrest
+    | true =>
     cases hql : q.loads with
     | false =>
-      rw [pgf_skip ow q _ s err hql, pgf_skip ow q _ s err hql]
+      rw [pgf_skip ow q _ s err hqk hql, pgf_skip ow q _ s err hqk hql]
       exact ih s true hrest
     | true =>
-      rcases hpre q (List.mem_cons_self ..) with h0 | ⟨w, hw⟩
+      rcases hpre q (List.mem_cons_self ..) with h0 | h0 | ⟨w, hw⟩
+      · rw [hqk] at h0; cases h0
       · rw [hql] at h0; cases h0
-      · rw [pgf_returns ow q _ s err w hql hw, pgf_returns ow q _ s err w hql hw]
+      · rw [pgf_returns ow q _ s err w hqk hql hw, pgf_returns ow q _ s err w hqk hql hw]
         exact ih _ err hrest
 
-/-- **C11.cli_only_destinations_change**: a path that is not the output name of a loadable cart keeps its content. -/
+/-- **C11.cli_only_destinations_change**: a path that is not the output name of a loadable cart keeps its content (in particular an
+argument that is not a cart name changes nothing and shifts nothing: every cart is written under its own output name). -/
 theorem cli_only_destinations_change (ow : Bool) (cs : List CartArg) (s : Store) (err : Bool) (p : String)
-    (hp : ∀ c ∈ cs, c.loads = true → outName ow c ≠ p) :
+    (hp : ∀ c ∈ cs, c.cart = true → c.loads = true → outName ow c ≠ p) :
     (processGameFiles ow cs s err).1.get p = s.get p := by
   induction cs generalizing s err with
   | nil => simp [processGameFiles]
   | cons c rest ih =>
-    have hrest : ∀ c ∈ rest, c.loads = true → outName ow c ≠ p :=
+    have hrest : ∀ c ∈ rest, c.cart = true → c.loads = true → outName ow c ≠ p :=
       fun x hx => hp x (List.mem_cons_of_mem _ hx)
+    cases hk : c.cart with
+    | false => rw [pgf_notcart ow c rest s err hk]; exact ih s err hrest
+    | true =>
     cases hl : c.loads with
-    | false => rw [pgf_skip ow c rest s err hl]; exact ih s true hrest
+    | false => rw [pgf_skip ow c rest s err hk hl]; exact ih s true hrest
     | true =>
       cases he : c.enc with
-      | raises ws => rw [pgf_raises ow c rest s err ws hl he]
+      | raises ws => rw [pgf_raises ow c rest s err ws hk hl he]
       | returns ws =>
-        rw [pgf_returns ow c rest s err ws hl he, ih _ err hrest]
-        exact get_set_ne _ _ _ _ (fun e => hp c (List.mem_cons_self ..) hl e.symm)
+        rw [pgf_returns ow c rest s err ws hk hl he, ih _ err hrest]
+        exact get_set_ne _ _ _ _ (fun e => hp c (List.mem_cons_self ..) hk hl e.symm)
 
 end Pico.C11
